@@ -94,12 +94,12 @@ def digest_type_params(compiler, tp):
        compiler._syntax_error(tp, "`:tp` requires Python 3.12 or later")
 
     return dict(type_params = [
-        asty.TypeVarTuple(x[1], name = mangle(x[1]))
+        asty.TypeVarTuple(x[1], name = mangle(compiler._nonconst(x[1])))
             if is_unpack("iterable", x) else
-        asty.ParamSpec(x[1], name = mangle(x[1]))
+        asty.ParamSpec(x[1], name = mangle(compiler._nonconst(x[1])))
             if is_unpack("mapping", x) else
         asty.TypeVar(x[0],
-               name = mangle(x[0]),
+               name = mangle(compiler._nonconst(x[0])),
                bound = None if x[1] is None
                    else compiler.compile(x[1]).force_expr)
         for x in tp[0]])
@@ -1394,6 +1394,9 @@ def compile_match_expression(compiler, expr, root, subject, clauses):
 def compile_pattern(compiler, pattern):
     value, assignment = pattern
     if assignment is not None:
+        if assignment == Symbol("_"):
+            # As in Python, where `case p as _` is a syntax error.
+            compiler._syntax_error(assignment, "`_` can't be used as an `:as` target")
         return compiler.scope.assign(
             asty.MatchAs(
                 value,
@@ -1444,7 +1447,8 @@ def compile_pattern(compiler, pattern):
         if value[1] == Symbol("_"):
             # `#* _` is a wildcard, like Python's `*_`: it binds nothing.
             return asty.MatchStar(value)
-        return compiler.scope.assign(asty.MatchStar(value, name=mangle(value[1])))
+        return compiler.scope.assign(asty.MatchStar(
+            value, name=mangle(compiler._nonconst(value[1]))))
 
     elif isinstance(value, Dict):
         kvs, rest = value
@@ -1456,7 +1460,7 @@ def compile_pattern(compiler, pattern):
             value,
             keys=[compiler.compile(key).expr for key in keys],
             patterns=[compile_pattern(compiler, v) for v in values],
-            rest=mangle(rest) if rest else None,
+            rest=mangle(compiler._nonconst(rest)) if rest else None,
         )
         # Call `scope.assign` for the assignment to `rest`, if there
         # is one.
@@ -1464,6 +1468,10 @@ def compile_pattern(compiler, pattern):
     elif isinstance(value, Expression):
         head, args, kwargs = value
         keywords, values = zip(*kwargs) if kwargs else ([], [])
+        if type(head) is Expression:
+            # A dotted head can't start from a constant (as
+            # `(.cls …)`, which is `((. None cls) …)`, would).
+            compiler._nonconst(head[1][0])
         return asty.MatchClass(
             value,
             cls=compiler.compile(
@@ -1472,7 +1480,7 @@ def compile_pattern(compiler, pattern):
                 if type(head) is Expression
                 else head).expr,
             patterns=[compile_pattern(compiler, v) for v in args],
-            kwd_attrs=[mangle(kwd.name) for kwd in keywords],
+            kwd_attrs=[mangle(compiler._nonconst(kwd.name)) for kwd in keywords],
             kwd_patterns=[compile_pattern(compiler, value) for value in values],
         )
     elif isinstance(value, Keyword):
